@@ -212,7 +212,7 @@ pub fn project(name: &str) -> Project {
             // (output and temp target are both larger than 64 KiB, with non-periodic content)
             let big: String = (1..=14000).map(|i| format!("{i}\n")).collect();
             tfile(&mut plain, "big.txt", &big);
-            let filler: String = (1..=9000).map(|i| format!("{i:x}.")).collect();
+            let filler: String = (1..=16000).map(|i| format!("{i:x}.")).collect();
             let body = |x: &str| format!("{x}\nTXTPP#include big.txt\n-TXTPP#temp big.tmp\n-{x}\n-{filler}\ntail\n");
             Project {
                 name: name.into(),
